@@ -15,7 +15,7 @@ RULE = ("random edit histories (5-30 operations) on one object of each of the te
         "that reached a state with >= 2 variables; distinct = digest of (type, operation list)")
 TIERS = {"quick": {"shards": 8, "cases": 450}, "thorough": {"shards": 16, "cases": 15000}}
 TYPES = ["QUBO", "PUBO", "PCBO", "QUSO", "PUSO", "PCSO", "QUBOMatrix", "PUBOMatrix", "QUSOMatrix", "PUSOMatrix"]
-OPS = ["set", "set0", "setdup", "iadd_item", "isub_item", "imul_item", "cancel", "iadd0", "iadd", "isub", "imul",
+OPS = ["cancel_top", "set", "set0", "setdup", "iadd_item", "isub_item", "imul_item", "cancel", "iadd0", "iadd", "isub", "imul",
        "idiv", "ipow", "update", "clear", "refresh", "copy", "derive", "constraint", "observe", "setbad"]
 
 
@@ -23,7 +23,7 @@ def FLOORS(tier):
     q = tier == "quick"
     f = {"inv-checks": 20000 if q else 10 ** 6, "refresh-exactness-checks": 800 if q else 30000,
          "observe-forms-checked": 600 if q else 20000, "constraint-ancilla-checks": 150 if q else 5000,
-         "observe-with-ancillas": 60 if q else 2000, "op:derive-then-constraint": 10 if q else 300}
+         "observe-with-ancillas": 60 if q else 2000, "op:observe-after-cancel_top": 60 if q else 2000, "observe-stale-with-ancillas": 15 if q else 500, "op:derive-then-constraint": 10 if q else 300}
     for t in TYPES:
         f["type:" + t] = 150 if q else 5000
     for o in OPS:
@@ -169,6 +169,23 @@ def case(ctx, rng, idx):
                 k = rng.choice(list(m)) if (m and rng.random() < 0.7) else rkey()
                 desc += [k]
                 m[k] -= m[k]
+            elif op == "cancel_top":
+                # every term of the variable registered last disappears, the variable stays registered (stale top label)
+                top = None
+                if labelled and m.mapping:
+                    top = max(m.mapping, key=lambda x: m.mapping[x])
+                elif m.variables:
+                    top = max(m.variables)
+                desc += [top]
+                for k in [k for k in m if top in k]:
+                    if rng.random() < 0.5:
+                        m[k] = 0
+                    else:
+                        m[k] -= m[k]
+                if labelled and not deg2 and len(labs) >= 3 and rng.random() < 0.7:
+                    rest = [x for x in labs if x != top]
+                    if len(rest) >= 3:
+                        m[tuple(rng.sample(rest, 3))] += rng.choice(gen.DYADIC)     # make sure a reduction is needed
             elif op == "iadd0":
                 k = rkey()
                 desc += [k]
@@ -280,7 +297,10 @@ def case(ctx, rng, idx):
         hist.append(desc)
         w = {"type": tname, "history": hist}
         if op in ("copy", "derive"):
-            # the copy must carry the same terms; history continues on it
+            # the copy must be a new object carrying the same terms; history continues on it
+            if new is m:
+                ctx.violation("%s:returns-the-same-object" % op, "%s returned the model itself" % (desc,), w)
+                return
             if type(new) is not T:
                 ctx.violation("%s:type-changed" % op, "%s returned %s" % (desc, type(new).__name__), w)
                 return
@@ -325,10 +345,16 @@ def case(ctx, rng, idx):
         if len(oracles.true_vars(m)) >= 2:
             reached2 = True
         # ---- un-refreshed observation of produced forms -----------------------------------
+        if op == "cancel_top" and labelled and rng.random() < 0.8:
+            op = "observe"
+            ctx.cat("op:observe-after-cancel_top")
+            desc.append("then-observe")
         if op == "observe":
             forms = ["qubo", "quso", "pubo", "puso", "enum"]
             form = rng.choice(forms)
             deg = rng.choice([2, 3])
+            if "then-observe" in desc:
+                form, deg = rng.choice(["qubo", "quso", "pubo", "puso"]), 2
             desc += [form, deg]
             snapm = dict(m)
             if form == "enum":
@@ -353,6 +379,8 @@ def case(ctx, rng, idx):
             ctx.count("observe-forms-checked")
             if r["anc"]:
                 ctx.cat("observe-with-ancillas")
+                if set(m.mapping) != oracles.true_vars(m):
+                    ctx.cat("observe-stale-with-ancillas")
     if len(kinds) >= 4 and reached2:
         ctx.nontrivial((tname, hist))
     ctx.sample({"type": tname, "history": hist[:10]}, limit=3)
